@@ -82,4 +82,13 @@ theorem C04_starttls_replies (s : S) :
     nw (handleStartTLS s) = nw s + 1 ∨ nw (handleStartTLS s) = nw s + 2 :=
   nw_handleStartTLS s
 
+open SmtpV.Server in
+/-- **C04_auth_replies.**  AUTH: a refused command (or a mechanism that refuses to start, or a panic) gets one reply; an exchange gets
+    one reply per step of the mechanism — each 334 challenge, then the final 235 or the mechanism's error — plus one when the client
+    cancels with `*` or sends something that is not base64 (501 / 454).  `sc` counts the mechanism's steps in the trace. -/
+theorem C04_auth_replies (s : S) (arg : Bytes) :
+    (owed (handleAuth s arg) = nw s + 1 ∧ sc (handleAuth s arg).1 = sc s) ∨
+    (∃ e, e ≤ 1 ∧ owed (handleAuth s arg) = nw s + (sc (handleAuth s arg).1 - sc s) + e ∧ sc s < sc (handleAuth s arg).1) :=
+  owed_handleAuth s arg
+
 end SmtpV.Props.C04
